@@ -47,13 +47,23 @@ def random_drawing_circuit(rng, family=None, max_nodes=4, max_comps=6):
     comps = [c for c in cd['components'] if c['ctor'] == 'resistor']
     if comps and rng.random() < 0.3:
         rng.choice(comps)['args']['R'] = rng.choice([math.inf, 1e-12])
+    if rng.random() < 0.35:
+        # a labelled wire (ideal ammeter): one terminal of a component is moved to a fresh node that the wire ties back
+        two = [c for c in cd['components'] if c['ctor'] != 'ground']
+        c = rng.choice(two)
+        k = rng.randrange(2)
+        old_node, new_node = c['nodes'][k], f'W{rng.randrange(100)}'
+        c['nodes'][k] = new_node
+        pair = [old_node, new_node] if rng.random() < 0.5 else [new_node, old_node]
+        wid = next(i for i in ['W1', 'Am', 'wire', 'S9'] if i not in {x['id'] for x in cd['components']})
+        cd['components'].insert(rng.randrange(len(cd['components']) + 1), {'ctor': 'short_circuit', 'id': wid, 'nodes': pair, 'args': {}})
     return cd, family, w
 
 
 def make_program(rng):
     cd, family, w = random_drawing_circuit(rng)
     nodes = circdesc.nodes({'components': [c for c in cd['components'] if c['ctor'] != 'ground']})
-    labels = {n: nm for n, nm in zip(rng.sample(nodes, min(len(nodes), rng.randint(0, 3))), rng.sample(['A', 'B', 'x', '10', '2', 'out', 'φ1'], 3))}
+    labels = {n: nm for n, nm in zip(rng.sample(nodes, min(len(nodes), rng.randint(0, 3))), rng.sample(['A', 'x', '10', 'out', 'φ1', '1', '2', '3', '4', '5'], 3))}
     prog = D.embed(rng, cd, labels=labels)
     return prog, family, w
 
